@@ -43,6 +43,7 @@ Proof.
   rewrite Hgo. cbn [rbind].
   assert (filter (fun o => negb (obj_is_block o)) (own_props body) = own_props body /\ filter obj_is_block (own_props body) = []) as [-> ->].
   { unfold own_props. clear. induction body as [|c r [A B]]; [auto|]. destruct c; cbn [flat_map app filter obj_is_block negb]; rewrite ?A, ?B; auto. }
+  rewrite (printable_id _ (own_props_all body)), app_nil_r.
   destruct (own_props body) as [|o l] eqn:E; [|reflexivity].
   exfalso. destruct body as [|c r]; [congruence|]. inversion Hd as [|? ? Hc _]; subst. destruct c; try contradiction. discriminate.
 Qed.
